@@ -119,7 +119,9 @@ def gen_multi(rng, tier, force=None):
     c = dict(fam="multi", n=n, t=t, rank=rank, hg=hg, ht=ht, il=il, lb=lb, db=db,
              noise=nested(rng, lb + [1], pos) if hg else None,
              task_noises=nested(rng, lb + [t], pos) if (ht and rank == 0) else None,
-             F=nested(rng, lb + [t, rank], lambda r: dy(r, -8, 8)) if (ht and rank > 0) else None)
+             # non-zero factor entries: every task then has a positive noise variance diag(F F^T)
+             F=nested(rng, lb + [t, rank], lambda r: r.choice([-1, 1]) * r.randint(1, 8) / 8.0)
+             if (ht and rank > 0) else None)
     d = gen_dist(rng, db, n * t)
     c.update(d)
     return c
